@@ -46,12 +46,12 @@ smax(const std::string& key, double v)
 }
 
 // tolerances, all relative to the reference value of the bin
-const double TOL_SAME_E = 2e-6;    // e from x1 vs e from x2 (a few float roundings per member)
+const double TOL_SAME_E = 3e-6;    // e from x1 vs e from x2 (a few float roundings per member)
 const double TOL_INVERSE = 1e-5;   // apply(undo(x)) = x, as the design states
 const double TOL_GROUPING = 1e-4;  // other grouping with an attenuation member (other summation order in the projector); exact otherwise
-const double TOL_GEB = 2e-6;       // get_bin_efficiency vs e
+const double TOL_GEB = 3e-6;       // get_bin_efficiency vs e
 const double TOL_ATT = 1e-4;       // attenuation factors vs explicit matrix, as the design states
-const double TOL_EXACT_REF = 2e-6; // e vs reference for the classes without projector
+const double TOL_EXACT_REF = 3e-6; // e vs reference for the classes without projector
 
 //! an inconsistency noticed by the harness itself: never a "rejected configuration"
 struct HarnessError : std::logic_error
@@ -585,7 +585,7 @@ check(const json& c)
       {
         const ProjDataInfo& p = *env.pdi_data;
         const float smax_mm = std::max(std::fabs(p.get_s(Bin(0, 0, 0, p.get_min_tangential_pos_num()))), std::fabs(p.get_s(Bin(0, 0, 0, p.get_max_tangential_pos_num()))));
-        if (!(smax_mm < 0.98F * env.sc->get_effective_ring_radius()))
+        if (dynamic_cast<const ProjDataInfoCylindricalArcCorr*>(&p) && !(smax_mm < 0.98F * env.sc->get_effective_ring_radius()))
           return Result::reject("tangential positions reach beyond the detector ring");
       }
     }
@@ -1122,6 +1122,19 @@ gen(Src& s, int size)
   return c;
 }
 
+//! whole-case exclusion of finding F4 (the other findings exclude bins or a member option inside a case, see the notes)
+std::string
+known_signature(const json& c)
+{
+  if (no_exclude)
+    return "";
+  const json& sc = c["scanner"];
+  if (contains_kind(c["norm"], "atten") && sc.contains("tof_poss") && sc["tof_poss"].get<int>() > 0
+      && c["pdi"]["tof_mash"].get<int>() == sc["tof_poss"].get<int>())
+    return "C13:attenuation_member:tof_mashed_to_one_bin";
+  return "";
+}
+
 bool
 nontrivial(const json& c)
 {
@@ -1138,6 +1151,7 @@ the_property()
   p.gen = gen;
   p.check = check;
   p.nontrivial = nontrivial;
+  p.known_signature = known_signature;
   p.rule = "normalisation class other than the trivial one and >= 2 symmetry groupings compared";
   return p;
 }
